@@ -24,6 +24,7 @@ import itertools, math, traceback
 from fractions import Fraction
 import numpy
 from .common import Infra
+from . import c10x
 
 TOL = 1e-10
 FAIL = 1e-8
@@ -103,7 +104,12 @@ def chain_cell(chain, nd):
 
 def face_of(topo, chain, nd, cellcache):
     """(owner element index, owner cell, axis, side(+1/-1), face box) of a face chain, the owner found by the real lookup"""
-    ielem, tail = topo.transforms.index_with_tail(chain)
+    try:
+        ielem, tail = topo.transforms.index_with_tail(chain)
+    except ValueError:
+        try: where = ' (box %r)' % (tuple(map(tuple, chain_box(chain, nd))),)
+        except Exception: where = ''
+        raise GeomError('a face chain of the boundary / interfaces is not a face of any element of the topology' + where)
     if ielem not in cellcache:
         cellcache[ielem] = chain_box(topo.transforms[ielem], nd)
     olo, ohi = cellcache[ielem]
@@ -221,19 +227,30 @@ def measure(topo, x, rng, deg=2, want_faces=True):
     except Exception as e:
         out['w'] = classify_exc(e)
     b = topo.boundary
-    funcs = [n * J, (x @ n) * J, J] + ([w * (x @ n) * J] if w is not None else [])
+    funcs = [n * J, (x @ n) * J, J] + ([w * (x @ n) * J, basis * (x @ n) * J] if w is not None else [])
     r = b.integrate(funcs, degree=deg)
     out.update(nb=len(b), closed=float(numpy.abs(r[0]).max()), flux=float(r[1]), bmeas=float(r[2]))
     i = topo.interfaces
     nopp = function.opposite(n)
-    funcs = [J, (n + nopp) * J, (function.jump(x) @ n) * J] + ([(function.jump(w * x) @ n) * J, w * nd * 0 + function.jump(w) * 0 * J] if w is not None else [])
-    r = i.integrate(funcs, degree=deg)
-    out.update(ni=len(i), imeas=float(r[0]), nsum=float(numpy.abs(r[1]).max()), jflux=float(r[2]))
+    funcs = [J, (n + nopp) * J, (function.jump(x) @ n) * J] + ([(function.jump(w * x) @ n) * J, (function.jump(basis[:, None] * x[None, :]) @ n) * J] if w is not None else [])
+    ri = i.integrate(funcs, degree=deg)
+    out.update(ni=len(i), imeas=float(ri[0]), nsum=float(numpy.abs(ri[1]).max()), jflux=float(ri[2]))
     out['div'] = out['flux'] - out['jflux'] - nd * out['vol']
     if w is not None:
-        wvol = float(topo.integrate(w * nd * J, degree=deg))
-        wb = float(b.integrate(w * (x @ n) * J, degree=deg))
-        out['wdiv'] = wb - float(r[3]) - wvol
+        rv = topo.integrate([w * nd * J, basis * nd * J], degree=deg)
+        out['wdiv'] = float(r[3]) - float(ri[3]) - float(rv[0])
+        # the divergence theorem for every single element, its hull assembled from the boundary and both sides of the interfaces
+        out['ediv'] = float(numpy.abs(r[4] - ri[4] - rv[1]).max())
+    # sum of the element perimeters (from the element references alone) = |boundary| + 2 |interfaces|
+    try:
+        from nutils import topology
+        erefs = topo.references.edges
+        sel = numpy.array([k for k, er in enumerate(erefs) if er], dtype=int)
+        et = topo.transforms.edges(topo.references)[sel]
+        alle = topology.TransformChainsTopology(topo.space, erefs[sel], et, et)
+        out['perimeter'] = float(alle.integrate(J, degree=deg)) - out['bmeas'] - 2 * out['imeas']
+    except Exception as e:
+        out['perimeter-exc'] = classify_exc(e)
     return out
 
 
@@ -256,7 +273,10 @@ def run(c):
               'refined / refined_by(random subset given as indices, sub-topology or chains) / & / final slice; grid: random shape, '
               'periodic axes and cell mask realised by subset / minus / groups; trim1d: random sample vectors (small integers times a '
               'dyadic scale, zeros and ties included), maxrefine 0-3, ndivisions 1-8; numeric: random operation pipelines on structured, '
-              'simplex, mixed, multipatch and product meshes with dyadic level sets.  A case is non-trivial when it refines / selects / '
+              'simplex, mixed, multipatch and product meshes with dyadic level sets; trimnodal: level sets given by random integer nodal values '
+              'on the vertex grid of the deepest trimming level (iid zero-rich, smooth with zeroed stretches of grid lines, products of linear '
+              'factors) through trim / trim(leveltopo=uniform or hierarchical refinement); sbnd: random interleavings of slices and uniform '
+              'refinements of (periodic) boxes, then boundary / refine in all orders.  A case is non-trivial when it refines / selects / '
               'cuts at least one element; distinct by its full description')
     c.assumptions += [
         'the Lean model covers box-shaped structured bases (all elements are cubes); simplex / mixed / multipatch / product meshes and '
@@ -270,20 +290,41 @@ def run(c):
     broken = c.build_and_audit()
     quick = c.tier == 'quick'
     ctx = Ctx(c, quick)
-    # ---- generate all cases on the real code, collect model requests
     c.log('built + audited')
-    ctx.known_probes(); c.log('probes done')
-    ctx.gen_trim1d(150 if quick else 4000); c.log('trim1d generated')
-    ctx.gen_grid(80 if quick else 1500); c.log('grid generated')
-    ctx.gen_hier(60 if quick else 700); c.log('hier generated')
-    # ---- one batch to the Lean model
-    ans = c.model([r for r, _ in ctx.requests]); c.log('model answered %d requests' % len(ans))
-    for (req, cb), a in zip(ctx.requests, ans):
-        cb(req, a)
-    ctx.finish_structural()
-    # ---- spec-oracle numeric streams
-    ctx.numeric(48 if quick else 900)
-    ctx.finish_numeric()
+    import multiprocessing, threading
+    # ---- trimnodal stream: pure function of a seed, evaluated in worker processes while the Lean driver and the other streams run
+    njobs = 96 if quick else 2400
+    jobs = [(c.rng.getrandbits(40), quick) for _ in range(njobs)]
+    with multiprocessing.get_context('fork').Pool(6 if quick else 10) as pool:
+        pending = pool.map_async(c10x.trimnodal_case, jobs, chunksize=2 if quick else 8)
+        # ---- generate all cases on the real code, collect model requests
+        ctx.known_probes(); c.log('probes done')
+        ctx.gen_trim1d(150 if quick else 4000); c.log('trim1d generated')
+        ctx.gen_grid(80 if quick else 1500); c.log('grid generated')
+        ctx.gen_hier(70 if quick else 800); c.log('hier generated')
+        ctx.gen_axis(150 if quick else 4000)
+        ctx.gen_sbnd(60 if quick else 1500); c.log('axis + sbnd done')
+        # ---- one batch to the Lean model (in a thread: the driver is a separate process), the numeric stream meanwhile
+        box = {}
+        def ask():
+            try: box['ans'] = c.model([r for r, _ in ctx.requests])
+            except BaseException as e: box['exc'] = e
+        th = threading.Thread(target=ask); th.start()
+        try:
+            ctx.numeric(48 if quick else 900); c.log('numeric done')
+        finally:
+            th.join()
+        if 'exc' in box: raise box['exc']
+        ans = box['ans']; c.log('model answered %d requests' % len(ans))
+        for (req, cb), a in zip(ctx.requests, ans):
+            cb(req, a)
+        ctx.finish_structural()
+        ctx.finish_numeric()
+        try:
+            recs = pending.get(timeout=900 if quick else 6000)
+        except multiprocessing.TimeoutError:
+            raise Infra('trimnodal workers timed out')
+    ctx.finish_trimnodal(recs); c.log('trimnodal done')
     for b in broken:
         c.broken_no_input('proof', b, dict(detail=b))
 
@@ -306,56 +347,92 @@ class Ctx:
             self.bad[stream] = self.bad.get(stream, 0) + 1
 
     # ------------------------------------------------------------ known / candidate findings: deterministic probes
+    def known(self, sig, still_fails, what, replay, untriaged_ok=False):
+        """verdict of a deterministic probe of a recorded minimal input: an OPEN entry of known_findings.json is re-run and reported
+        through report_known_still_failing (one KNOWN-FINDING line while it fails, silent once fixed); without an open entry a
+        failure is a failing input like any other"""
+        c = self.c
+        e = c.match_known(sig)
+        if e is not None:
+            c.report_known_still_failing(e, bool(still_fails))
+            self.reported.add(e.get('id'))
+        elif still_fails:
+            if untriaged_ok and not any(f.get('signature') == sig for f in c.findings):
+                # reported to the maintainer of known_findings.json, not yet triaged: visible in the log and the evidence, no verdict
+                c.log('note: untriaged candidate finding %s: %s' % (sig, what)); c.count('untriaged-candidate:' + sig)
+                c.extra.setdefault('untriaged_candidates', []).append(dict(signature=sig, what=what, replay=replay))
+            else:
+                c.failing_input(sig, what, replay)
+
     def known_probes(self):
         from nutils import mesh, function
         c = self.c
+        self.reported = set()
         topo, x = mesh.rectilinear([4])
         J = function.J(x); n = function.normal(x)
         # trimmed, then refined_by the element that contains the cut: the trimmed end point must stay on the boundary
+        sig = 'trimmed-then-refined_by:boundary-lost'
         try:
             t = topo.trim(x[0] - 1.3, maxrefine=2)
             h = t.refined_by([0])
             pts = sorted(float(v) for v in h.boundary.sample('gauss', 1).eval(x).ravel())
             closed = float(numpy.abs(h.boundary.integrate(n * J, degree=1)).max())
             c.count('probe:trim-refined_by')
-            if closed > FAIL:
-                c.failing_input('trimmed-then-refined_by:boundary-lost', 'boundary of rectilinear([4]).trim(x-1.3,maxrefine=2).refined_by([0]) is %r: the trimmed end point is lost, the outward normals integrate to %g' % (pts, closed),
-                                dict(stream='probe', mesh='rectilinear([4])', ops=['trim(x-1.3,maxrefine=2)', 'refined_by([0])', 'boundary'], boundary_points=pts, closedness=closed))
+            self.known(sig, closed > FAIL, 'boundary of rectilinear([4]).trim(x-1.3,maxrefine=2).refined_by([0]) is %r: the trimmed end point is lost, the outward normals integrate to %g' % (pts, closed),
+                       dict(stream='probe', mesh='rectilinear([4])', ops=['trim(x-1.3,maxrefine=2)', 'refined_by([0])', 'boundary'], boundary_points=pts, closedness=closed))
         except Exception as e:
+            self.known(sig, False, '', {})
             c.failing_input('trimmed-then-refined_by:' + type(e).__name__, 'rectilinear([4]).trim(x-1.3,maxrefine=2).refined_by([0]).boundary raises ' + short_tb(e), dict(stream='probe', exc=short_tb(e)))
+        sig = 'trimmed-then-refined_by:AttributeError'
         try:
             t = topo.trim(x[0] - 1.3, maxrefine=0)
             h = t.refined_by([0])
             vol = float(h.integrate(J, degree=1))
+            self.known(sig, False, '', {})
             if abs(vol - float(t.integrate(J, degree=1))) > FAIL:
                 c.failing_input('trimmed-then-refined_by:volume', 'refined_by changes the volume of a trimmed topology', dict(stream='probe'))
         except Exception as e:
             cls = classify_exc(e)
-            if cls == 'known:mosaic-child_refs':
-                c.failing_input('trimmed-then-refined_by:AttributeError', 'rectilinear([4]).trim(x-1.3,maxrefine=0).refined_by([0]) raises ' + short_tb(e),
-                                dict(stream='probe', mesh='rectilinear([4])', ops=['trim(x-1.3,maxrefine=0)', 'refined_by([0])'], exc=short_tb(e)))
-            elif not cls.startswith('rejected'):
+            self.known(sig, cls == 'known:mosaic-child_refs', 'rectilinear([4]).trim(x-1.3,maxrefine=0).refined_by([0]) raises ' + short_tb(e),
+                       dict(stream='probe', mesh='rectilinear([4])', ops=['trim(x-1.3,maxrefine=0)', 'refined_by([0])'], exc=short_tb(e)))
+            if cls != 'known:mosaic-child_refs' and not cls.startswith('rejected'):
                 c.failing_input('trimmed-then-refined_by:' + type(e).__name__, 'refined_by of a trimmed topology raises ' + short_tb(e), dict(stream='probe', exc=short_tb(e)))
-        # negative element index
+        # negative element index (fixed in the pinned tree; the entry, if any, is closed: a failure is a violation)
         try:
             h = topo.refined_by([-1])
             vol = float(h.integrate(J, degree=1))
             c.count('probe:refined_by-negative')
-            if abs(vol - 4) > FAIL:
-                c.failing_input('refined_by:negative-index-overlap', 'rectilinear([4]).refined_by([-1]) keeps element 3 and adds its children: %d elements, volume %g instead of 4' % (len(h), vol),
-                                dict(stream='probe', mesh='rectilinear([4])', ops=['refined_by([-1])'], nelems=len(h), volume=vol))
+            self.known('refined_by:negative-index-overlap', abs(vol - 4) > FAIL, 'rectilinear([4]).refined_by([-1]) keeps element 3 and adds its children: %d elements, volume %g instead of 4' % (len(h), vol),
+                       dict(stream='probe', mesh='rectilinear([4])', ops=['refined_by([-1])'], nelems=len(h), volume=vol))
         except Exception as e:
             c.count('probe:refined_by-negative:' + classify_exc(e))
         # periodic axis of length 1: the subset that selects everything must have the same interfaces as the topology itself
+        sig = 'subset-interfaces:periodic-axis-of-length-1'
         try:
             p, xp = mesh.rectilinear([1, 2], periodic=[0])
             s = p.subset(p.take([0, 1]))
             c.count('probe:periodic-short')
-            if len(s.interfaces) != len(p.interfaces):
-                c.failing_input('subset-interfaces:periodic-axis-of-length-1', 'rectilinear([1,2],periodic=[0]): subset of all elements has %d interfaces, the topology itself %d (the periodic self-interfaces are lost)' % (len(s.interfaces), len(p.interfaces)),
-                                dict(stream='probe', mesh='rectilinear([1,2],periodic=[0])', ops=['subset(take([0,1]))', 'interfaces'], got=len(s.interfaces), want=len(p.interfaces)))
+            self.known(sig, len(s.interfaces) != len(p.interfaces), 'rectilinear([1,2],periodic=[0]): subset of all elements has %d interfaces, the topology itself %d (the periodic self-interfaces are lost)' % (len(s.interfaces), len(p.interfaces)),
+                       dict(stream='probe', mesh='rectilinear([1,2],periodic=[0])', ops=['subset(take([0,1]))', 'interfaces'], got=len(s.interfaces), want=len(p.interfaces)))
         except Exception as e:
+            self.known(sig, False, '', {})
             c.count('probe:periodic-short:' + classify_exc(e))
+        # coarse binning of the cut position: a cut rounded onto a vertex of a child leaves the trimmed reference open
+        sig = 'trim:coarse-ndivisions:boundary-not-closed'
+        try:
+            q, xq = mesh.rectilinear([1, 1])
+            t = q.trim(-4 * xq[0] + 2 * xq[1] - .5, maxrefine=1, ndivisions=1)
+            r = t.boundary.integrate(function.normal(xq) * function.J(xq), degree=1)
+            c.count('probe:coarse-ndivisions')
+            self.known(sig, float(numpy.abs(r).max()) > FAIL, 'rectilinear([1,1]).trim(-4x+2y-.5,maxrefine=1,ndivisions=1): the outward normals of the boundary integrate to %r instead of 0' % ([float(v) for v in r],),
+                       dict(stream='probe', mesh='rectilinear([1,1])', ops=['trim(-4*x+2*y-.5,maxrefine=1,ndivisions=1)', 'boundary'], normal_integral=[float(v) for v in r]), untriaged_ok=True)
+        except Exception as e:
+            self.known(sig, False, '', {})
+            c.count('probe:coarse-ndivisions:' + classify_exc(e))
+        # every other open entry must have a probe here
+        for e in c.findings:
+            if e.get('status') == 'open' and e.get('id') not in self.reported:
+                c.log('WARNING: open known finding %r of C10 has no probe in harness/nvh/c10.py: it is not re-run' % e.get('id')); c.count('known-finding-without-probe')
 
     # ------------------------------------------------------------ (c) 1-D trimming
     def gen_trim1d(self, N):
@@ -615,10 +692,13 @@ class Ctx:
             while True:
                 shape = tuple(rng.randint(1, [0, 6, 4, 2][nd]) for _ in range(nd))
                 if math.prod(shape) <= 12: break
-            per = tuple(int(rng.random() < .3) for _ in shape)
-            self._hier_case(shape, per)
+            per = [int(rng.random() < .3) for _ in shape]
+            mode = rng.choice(['plain', 'plain', 'plain', 'and', 'slice-first', 'slice-first', 'prerefined', 'slice-prerefined'])
+            if mode.startswith('slice') and not any(per) and rng.random() < .6:
+                per[rng.randrange(nd)] = 1      # slices of periodic axes: the slice has genuine end faces in a direction that keeps its modulus
+            self._hier_case(shape, tuple(per), mode)
 
-    def _hier_case(self, shape, per):
+    def _hier_case(self, shape, per, mode):
         from nutils import mesh
         c = self.c; rng = self.rng
         nd = len(shape)
@@ -629,22 +709,29 @@ class Ctx:
         bper = list(per)
         steps = []
         real = {}
-        mode = rng.choice(['plain', 'plain', 'plain', 'and', 'slice-first', 'prerefined'])
         try:
             base, x = mesh.rectilinear(list(shape), periodic=[k for k in range(nd) if per[k]])
             nref = 0
-            if mode == 'slice-first':
-                k = rng.randrange(nd)
-                if shape[k] > 1:
-                    a = rng.randrange(0, shape[k]); b = rng.randint(a + 1, shape[k])
-                    if (a, b) != (0, shape[k]):
+            # the structured base: slices (preferably of periodic axes) and a uniform refinement, in random order; lo/hi are kept in
+            # units of the cells of the base (level nref)
+            pre = {'plain': [], 'and': [], 'slice-first': ['slice'] + ['slice'] * (rng.random() < .3), 'prerefined': ['refine'],
+                   'slice-prerefined': rng.choice([['slice', 'refine'], ['refine', 'slice'], ['slice', 'refine', 'slice']])}[mode]
+            for what in pre:
+                if what == 'refine':
+                    base = base.refined; nref += 1
+                    lo = [v * 2 for v in lo]; hi = [v * 2 for v in hi]
+                    steps.append('base.refined')
+                else:
+                    cand = [k for k in range(nd) if hi[k] - lo[k] > 1]
+                    if not cand: continue
+                    pk = [k for k in cand if bper[k]]
+                    k = rng.choice(pk) if pk and rng.random() < .7 else rng.choice(cand)
+                    width = hi[k] - lo[k]
+                    a = rng.randrange(0, width); b = rng.randint(a + 1, width)
+                    if (a, b) != (0, width):
                         base = base[(slice(None),) * k + (slice(a, b),)]
-                        lo[k], hi[k] = a, b; bper[k] = 0
+                        lo[k], hi[k] = lo[k] + a, lo[k] + b; bper[k] = 0
                         steps.append('base[%d:%d @%d]' % (a, b, k))
-            if mode == 'prerefined':
-                base = base.refined; nref = 1
-                lo = [v * 2 for v in lo]; hi = [v * 2 for v in hi]
-                steps.append('base.refined')
             desc.update(lo=lo, hi=hi, nrefine=nref)
 
             def history(nops):
@@ -831,7 +918,8 @@ class Ctx:
         c = self.c
         for stream, label in (('trim1d', 'LineReference.trim / complement / negation vs model + exact partition oracle'),
                               ('grid', 'StructuredTopology / SubsetTopology connectivity, boundary, interfaces vs model + exact oracle'),
-                              ('hier', 'HierarchicalTopology histories vs model + exact boundary / interface oracle')):
+                              ('hier', 'HierarchicalTopology histories vs model + exact boundary / interface oracle'),
+                              ('axis', 'transformseq DimAxis / IntAxis refined / getitem / boundaries / intaxis / opposite vs model + exact cell enumeration')):
             c.obligation('corr:' + stream, self.bad.get(stream, 0) == 0, 'correspondence', label)
 
     # ------------------------------------------------------------ (S) numeric streams
@@ -1009,6 +1097,9 @@ class Ctx:
             checks.append(('normals-opposite', m['nsum'], where))
             checks.append(('divergence', m['div'], where))
             if 'wdiv' in m: checks.append(('interfaces-once', m['wdiv'], where))
+            if 'ediv' in m: checks.append(('element-divergence', m['ediv'], where))
+            if 'perimeter' in m: checks.append(('perimeter', m['perimeter'], where))
+            else: c.count('numeric:perimeter-unavailable:' + m.get('perimeter-exc', '?'))
             if not periodic: checks.append(('interface-position-jump', m['jflux'], where))
             if hasattr(cur, 'connectivity') and all(type(r).__name__ in ('TensorReference', 'LineReference', 'TriangleReference', 'TetrahedronReference') for r in cur.references):
                 checks.append(('interfaces-vs-connectivity', float(2 * m['ni'] - conn_pairs(cur)), where))
@@ -1046,7 +1137,7 @@ class Ctx:
         for name, val, where in checks:
             c.count('identity:' + name)
             if not abs(val) <= FAIL:
-                if hist['trim_then_refine'] and name in ('closed', 'divergence', 'interfaces-once') and state.get('type') == 'HierarchicalTopology':
+                if hist['trim_then_refine'] and name in ('closed', 'divergence', 'interfaces-once', 'element-divergence', 'perimeter') and state.get('type') == 'HierarchicalTopology':
                     sig = 'trimmed-then-refined_by:boundary-lost'
                 else:
                     sig = 'numeric:%s:%s' % (name, where)
@@ -1099,6 +1190,140 @@ class Ctx:
             c.count('identity:' + name)
             if not abs(val) <= FAIL:
                 self.fail('numeric', 'numeric:%s:%s' % (name, where), 'identity %s violated by %.3g on %s after %s' % (name, val, where, steps), dict(desc, identity=name, value=val))
+
+    # ------------------------------------------------------------ axis arithmetic of structured topologies (M + exact oracle)
+    def gen_axis(self, N):
+        """real `transformseq.DimAxis / IntAxis` objects driven through random refined / slice / boundary layer / interface layer /
+        opposite pipelines; compared with the Lean model and with an exact recomputation of WHICH cells the axis must enumerate"""
+        from nutils import transformseq
+        c = self.c; rng = self.rng
+        for icase in range(N):
+            n = rng.randint(1, 7); per = rng.random() < .6
+            ax = transformseq.DimAxis(0, n, n if per else 0, per)
+            want = list(range(n)); period = n if per else 0        # oracle: the cells the axis enumerates, in order, and the period at this level
+            kind = 'dim'; side = None; ops = []; exc = None
+            try:
+                for _ in range(rng.randint(1, 5)):
+                    choices = ['R', 'R'] + (['G', 'G'] if kind == 'dim' and len(want) > 1 else []) + (['B', 'B', 'I'] if kind == 'dim' else []) + (['O'] if kind == 'int' else [])
+                    op = rng.choice(choices)
+                    if op == 'R':
+                        if len(want) > 64: break
+                        ax = ax.refined; period *= 2
+                        # children of every cell; a layer on side s keeps the child on that side, an interface layer of several cells
+                        # additionally the faces between the two children of the cells in between
+                        if kind == 'dim': want = [2 * v + k for v in want for k in (0, 1)]
+                        else:
+                            new = []
+                            for q, v in enumerate(want):
+                                new.append(2 * v + side)
+                                if q + 1 < len(want): new.append((2 * v + side + 1) % period if period else 2 * v + side + 1)
+                            want = new
+                        ops.append('R')
+                    elif op == 'G':
+                        a = rng.randrange(0, len(want)); b = rng.randint(a + 1, len(want))
+                        if (a, b) == (0, len(want)) and rng.random() < .8: continue
+                        ax = ax.getitem(slice(a, b)); want = want[a:b]; per = False
+                        ops.append('G %d %d' % (a, b))
+                    elif op == 'B':
+                        if per: continue
+                        k = rng.randrange(2)
+                        ax = list(ax.boundaries(0))[k]; want = [want[-1] if k else want[0]]; kind = 'int'; side = k
+                        ops.append('B %d' % k)
+                    elif op == 'I':
+                        sd = rng.randrange(2)
+                        ax = ax.intaxis(0, bool(sd))
+                        # interior faces: between consecutive cells (and across the seam when periodic), seen from the cell on side sd
+                        # (side 1 = the face is the HIGH face of its cell, i.e. the cell before the face)
+                        pairs = list(zip(want, want[1:])) if not per else list(zip([want[-1]] + want[:-1], want))
+                        want = [p[0] if sd else p[1] for p in pairs]; kind = 'int'; side = sd
+                        ops.append('I %d' % sd)
+                        if not want: break
+                    else:
+                        ax = ax.opposite(0); side = 1 - side
+                        want = [((v + (1 if side == 0 else -1)) % period if period else v + (1 if side == 0 else -1)) for v in want]
+                        ops.append('O')
+                got = [int(ax.map(e)) for e in range(len(ax))]
+                state = (int(ax.i), int(ax.j), int(ax.mod), int(ax.isdim), int(ax.isperiodic if ax.isdim else ax.side))
+            except Exception as e:
+                exc = short_tb(e); got = state = None
+            desc = dict(stream='axis', n=n, periodic=bool(period), ops=ops)
+            c.case(('axis', n, bool(period), tuple(ops)), nontrivial=len(ops) > 1)
+            c.count('axis:%s%s' % (kind, ':modulus' if period else ''))
+            if exc is not None:
+                self.fail('axis', 'axis:crash', 'axis pipeline raises ' + exc, desc); continue
+            if got != want:
+                self.fail('axis', 'axis:%s:wrong-cells' % ('layer' if kind == 'int' else 'direction'),
+                          'after %s the axis of a %s direction of %d cells enumerates the cells %r, it must enumerate %r' % (ops, 'periodic' if n and desc['periodic'] else 'plain', n, got, want), dict(desc, got=got, want=want))
+                continue
+            def cb(req, a, got=got, state=state, desc=desc):
+                self.c.traces += 1
+                f = a.split('|')
+                if f[0] != 'ok' or tuple(int(v) for v in f[1].split()) != state or [int(v) for v in f[2].split()] != got:
+                    self.disagree('axis', 'transformseq axis differs from the model: real %r %r, model %s' % (state, got, a), dict(desc, request=req))
+            self.req('axis|0 %d %d %d|%s' % (n, n if desc['periodic'] else 0, int(desc['periodic']), ';'.join(ops)), cb)
+
+    # ------------------------------------------------------------ structured boundary algebra (exact oracle)
+    def gen_sbnd(self, N):
+        c = self.c
+        for icase in range(N):
+            rec = c10x.sbnd_case(self.rng, self.quick)
+            c.case(rec['key'], nontrivial=len(rec['steps']) > 0 or any(rec['desc']['periodic']))
+            for k in rec['counts']: c.count(k)
+            c.sample(dict(rec['desc'], outcome=rec.get('exc', 'compared')), limit=8)
+            for sig, what, extra in rec['problems']:
+                self.fail('sbnd', sig, what, dict(rec['desc'], **extra))
+            if 'exc' in rec:
+                cls = rec['cls']
+                c.count('sbnd-outcome:' + cls)
+                if cls.startswith('crash') or cls == 'inconsistent:geometry':
+                    self.fail('sbnd', 'sbnd:' + cls, 'slices / refinements / boundaries of a structured topology raise ' + rec['exc'], rec['desc'])
+                else:      # every generated pipeline is valid
+                    self.disagree('sbnd', 'pipeline of supported structured operations fails: ' + rec['exc'], rec['desc'])
+        c.obligation('spec:structured-boundary-algebra', self.bad.get('sbnd', 0) == 0, 'exploration',
+                     'refine/boundary/slice commute on (slices of) periodic structured topologies: hull faces, named groups, boundary of the boundary, refined interfaces vs exact integer recomputation')
+
+    # ------------------------------------------------------------ trimming with zero-rich nodal level sets (worker records)
+    def finish_trimnodal(self, recs):
+        c = self.c
+        nconfirm = 0
+        for rec in recs:
+            c.case(rec.get('key'), nontrivial=rec.get('nontrivial', False))
+            for k in rec['counts']: c.count(k)
+            c.sample(dict({k: v for k, v in rec['desc'].items() if k != 'nodal'}, steps=rec['steps'], outcome=rec.get('exc', 'measured')), limit=10)
+            for name, val, where in rec['checks']: c.count('trimnodal-identity:' + name)
+            bad = [(name, val, where) for name, val, where in rec['checks'] if not abs(val) <= FAIL]
+            if not bad and 'exc' not in rec:
+                continue
+            # confirm in this process (the case is a pure function of its seed) before any verdict
+            if nconfirm < 12:
+                nconfirm += 1
+                again = c10x.trimnodal_case((rec['seed'], self.quick))
+            else:
+                again = rec
+            desc = dict(rec['desc'], steps=rec['steps'], measured=rec.get('measured'))
+            if 'exc' in rec:
+                if 'exc' not in again:
+                    self.disagree('trimnodal', 'worker outcome not reproduced in the parent process: ' + rec['exc'], desc); continue
+                cls = rec['cls']
+                c.count('trimnodal-outcome:' + cls)
+                if cls == 'known:mosaic-child_refs':
+                    self.fail('trimnodal', 'trimmed-then-refined_by:AttributeError', 'refining a trimmed topology raises ' + rec['exc'], desc)
+                elif cls.startswith('crash') or cls == 'inconsistent:geometry':
+                    self.fail('trimnodal', 'trimnodal:' + cls, 'trimming with a nodal level set raises ' + rec['exc'], desc)
+                else:
+                    self.disagree('trimnodal', 'trimming with a nodal level set / faces of the result are rejected: ' + rec['exc'], desc)
+                continue
+            abad = {(name, where) for name, val, where in again.get('checks', []) if not abs(val) <= FAIL}
+            # one verdict per case: the most elementary violated identity names the root cause
+            order = ['partition:trim-minus', 'element-references-closed', 'closed', 'element-divergence', 'perimeter', 'normals-opposite', 'interface-position-jump', 'cut:normals', 'cut:measure', 'cut:moments']
+            bad.sort(key=lambda t: order.index(t[0]) if t[0] in order else len(order))
+            for name, val, where in bad[:1]:
+                if (name, where) not in abad:
+                    self.disagree('trimnodal', 'worker measurement not reproduced in the parent process: %s = %r' % (name, val), desc); continue
+                self.fail('trimnodal', 'trimnodal:%s:%s' % (name, where), 'identity %s violated by %.3g on %s trimmed by a nodal level set (%s, maxrefine=%d, ndivisions=%d; %s)' % (
+                    name, val, where, rec['desc']['field'], rec['desc']['maxrefine'], rec['desc']['ndivisions'], ' '.join(rec['steps'])), dict(desc, identity=name, value=val))
+        c.obligation('spec:trimmed-nodal-levelsets', self.bad.get('trimnodal', 0) == 0, 'exploration',
+                     'level sets with exact zeros along grid lines: partition, per-element divergence theorem, perimeter bookkeeping (independent interface measure), closed boundary, shared cut')
 
     def finish_numeric(self):
         self.c.obligation('spec:numeric-identities', self.bad.get('numeric', 0) == 0, 'exploration',
